@@ -129,6 +129,23 @@ fn main() {
         stats.add(&format!("evaluations.{name}"), ev);
         stats.merge(s);
     }
+    if (property == "C12" || property == "C15") && !cfg.has("--vm-only") {
+        // the generated back-end: the compiled C02 corpus, same oracle
+        let c02 = me.with_file_name("c02");
+        if c02.exists() {
+            let out = std::process::Command::new(&c02).args([&format!("--prop={property}"), "--tier", cfg.tier.name(), "--emit-stats"]).output().expect("run c02");
+            let txt = String::from_utf8_lossy(&out.stdout);
+            match txt.lines().find_map(|l| l.strip_prefix("@STATS ")).and_then(|j| j.parse::<vcore::Value>().ok()).and_then(|v| Stats::from_json(&v)) {
+                Some(s) => {
+                    stats.add("evaluations.generated-backend", s.get("evaluations"));
+                    stats.merge(s);
+                }
+                None => stats.failures.push(format!("no statistics from the generated back-end run: {}", txt.lines().last().unwrap_or(""))),
+            }
+        } else {
+            stats.failures.push(format!("binary missing: {}", c02.display()));
+        }
+    }
     if cfg.has("--emit-stats") {
         println!("@STATS {}", stats.to_json());
         return;
